@@ -15,7 +15,12 @@ group_names list is concrete):
   by_group     stratified by group (modular: against the __getitem__ contract proved above and the index-range contract of
                Scores._sample_indices proved in C11): every (score, label) pair of the sample is a pair of the source with that label,
                each group keeps its total size, flags and group_names kept
-Sum over groups = overall confusion matrix (needs the partition-sum lemma L7, an induction) and the default group_names: bounded layer.
+  partition    group_cm(t) and cm(t) are both executed (mask selection, constructor, searchsorted for every group): for labels drawn
+               from group_names the four cells summed over the groups equal the overall cells, at every threshold and in every
+               configuration.  Lemma L7 by induction over the prefix length k (base and step are obligations, the induction principle is
+               applied by the generator): with rank_g(k) = #{i < k : label_i = g} (recursive ghost function) (A) sum_g rank_g(k) = k and
+               (B) rank_g(k) is the cut position of the selection map sigma_g at k; hence count_g(t) = rank_g(count(t)).
+Default group_names (np.unique of the labels): bounded layer.
 """
 import os
 
@@ -53,7 +58,7 @@ def build(sizes=None, only=None, part=None):
     obs = []
     if sizes is not None:
         return obs
-    for fn in (build_init, build_getitem, build_group_cm, build_swap, build_bootstrap, build_bootstrap_by_group):
+    for fn in (build_init, build_getitem, build_group_cm, build_partition, build_swap, build_bootstrap, build_bootstrap_by_group):
         if part is not None and part != fn.__name__[6:]:
             continue
         try:
@@ -66,7 +71,7 @@ def build(sizes=None, only=None, part=None):
     return obs
 
 
-PARTS = ["init", "getitem", "group_cm", "swap", "bootstrap", "bootstrap_by_group"]
+PARTS = ["init", "getitem", "group_cm", "partition", "swap", "bootstrap", "bootstrap_by_group"]
 
 
 def build_init():
@@ -100,11 +105,12 @@ def build_init():
             if is_sorted:
                 ob(f"{nm}-label-travels-with-its-score", And(toR(a.elem(k)) == toR(src.elem(k)), toI(g.elem(k)) == toI(gsrc.elem(k))), hy + [0 <= k, k < n])
             else:
-                idx = o.env.get(f"{nm}_idx")
-                if not (isinstance(idx, T) and hasattr(idx, "perm_fn")):
-                    ob(f"{nm}-reordered-by-an-argsort-permutation", BoolVal(False), [], "post", {"engine_error": "no argsort witness"})
+                # the argsort call on this class's scores (whatever the local variable is called)
+                calls = [c_ for c_ in ex.__dict__.get("argsort_calls", []) if c_["of"] is src]
+                if len(calls) != 1:
+                    ob(f"{nm}-reordered-by-an-argsort-permutation", BoolVal(False), [], "post", {"engine_error": f"{len(calls)} argsort calls on the {nm} scores"})
                     continue
-                pi, inv = idx.perm_fn
+                pi, inv = calls[0]["pi"], calls[0]["inv"]
                 ob(f"{nm}-label-travels-with-its-score", And(0 <= pi(k), pi(k) < n, toR(a.elem(k)) == toR(src.elem(pi(k))), toI(g.elem(k)) == toI(gsrc.elem(pi(k)))), hy + [0 <= k, k < n])
                 ob(f"{nm}-every-pair-is-kept(permutation)", And(0 <= inv(k), inv(k) < n, toR(a.elem(inv(k))) == toR(src.elem(k)), toI(g.elem(inv(k))) == toI(gsrc.elem(k))), hy + [0 <= k, k < n])
         gr = so.attrs.get("groups")
@@ -314,6 +320,118 @@ def build_bootstrap():
             obs.append(Oblig(f"C12/bootstrap/{name}", [], BoolVal(bool(outs) and all(o.raised and "ValueError" in str(o.value.exc) for o in outs)), "post", ("C12",)))
         except Exception as e:
             obs.append(Oblig(f"C12/bootstrap/{name}", [], BoolVal(False), "post", ("C12",), {"engine_error": f"{type(e).__name__}: {e}"}))
+    return obs
+
+
+def build_partition():
+    """sum over groups of the per-group confusion matrices = overall confusion matrix (lemma L7 by induction on the prefix length)"""
+    from z3 import ForAll, Function, If, Sum
+    obs = []
+    for sc, ec in (("pos", "pos"), ("pos", "neg"), ("neg", "pos"), ("neg", "neg")):
+        ex = new_exec()
+        path = Path()
+        me = mk_group_scores(ex, path, sc, ec)
+        t = Real("t")
+        tag = f"[{sc},{ec}]"
+
+        def ob(name, goal, hyps, kind="post", meta=None):
+            obs.append(Oblig(f"C12/partition/{name}{tag}", hyps, goal, kind, ("C12",), dict({"key": f"C12/partition/{name}"}, **(meta or {}))))
+        o1 = run_method(ex, "GroupScores", "group_cm", me, [t], path=path)
+        ok = len(o1) == 1 and not o1[0].raised
+        ob("group_cm-single-path", BoolVal(ok), [], "post")
+        if not ok:
+            continue
+        GM = o1[0].value.attrs["matrix"]
+        o2 = run_method(ex, "Scores", "cm", me, [t], path=o1[0].path)
+        ok2 = len(o2) == 1 and not o2[0].raised
+        ob("cm-single-path", BoolVal(ok2), [], "post")
+        if not ok2:
+            continue
+        OM = o2[0].value.attrs["matrix"]
+        hy = list(o2[0].path.pc)
+        subs = me.attrs["_grouped_scores"]
+        if not (isinstance(subs, dict) and sorted(subs) == sorted(GROUPS)):
+            ob("every-group-indexed-once", BoolVal(False), [], "post", {"engine_error": "group cache not recognised"})
+            continue
+        lemmas = []
+        k, K = Int("k!ind"), Int("K!ind")
+        for nm in ("pos", "neg"):
+            src, lab = me.attrs[nm], me.attrs[nm + "_groups"]
+            A, n = src.sym
+            n = toI(n)
+            # pre-condition of the partition clause: every label is one of group_names
+            pre = ForAll([k], Implies(And(0 <= k, k < n), Or(*[toI(lab.elem(k)) == g for g in GROUPS])), patterns=[lab.elem(k)])
+            rank, invs, cuts = {}, {}, {}
+            ax = []
+            for g in GROUPS:
+                sel = getattr(subs[g].attrs[nm], "select_of", None)
+                if sel is None:
+                    # the constructor re-sorts nothing (is_sorted=True) -- the selection is the array itself; look one level down
+                    sel = getattr(getattr(subs[g].attrs[nm], "named_of", None), "select_of", None)
+                if sel is None:
+                    ob(f"{nm}-group-{g}-is-a-mask-selection", BoolVal(False), [], "post", {"engine_error": "no selection witness"})
+                    break
+                _, mask, sigma, rho, m = sel
+                r = Function(f"rank_{nm}_{g}", IntSort(), IntSort())
+                rank[g] = r
+                ax += [r(0) == 0, ForAll([k], Implies(k >= 0, r(k + 1) == r(k) + If(toI(lab.elem(k)) == g, 1, 0)), patterns=[r(k + 1)])]
+                invs[g] = lambda kk, r=r, sigma=sigma, m=m: And(0 <= r(kk), r(kk) <= m, Or(r(kk) == 0, sigma(r(kk) - 1) < kk), Or(r(kk) == m, sigma(r(kk)) >= kk))
+                cuts[g] = (sigma, rho, m, mask)
+            else:
+                base_h = hy + ax + [pre]
+                # (A) the ranks add up to the prefix length
+                ob(f"L7/{nm}/A-base: ranks add up to 0 at k=0", Sum([rank[g](0) for g in GROUPS]) == 0, base_h, "lemma")
+                ob(f"L7/{nm}/A-step: ranks add up to k+1", Sum([rank[g](K + 1) for g in GROUPS]) == K + 1, base_h + [0 <= K, K < n, Sum([rank[g](K) for g in GROUPS]) == K], "lemma")
+                lemA = ForAll([k], Implies(And(0 <= k, k <= n), Sum([rank[g](k) for g in GROUPS]) == k), patterns=[rank[GROUPS[0]](k)])
+                lemB = []
+                for g in GROUPS:
+                    sigma, rho, m, mask = cuts[g]
+                    # the mask of the selection is `labels == g`
+                    ob(f"L7/{nm}/group-{g}: the selection mask is labels == g", toB(mask.elem(K)) == (toI(lab.elem(K)) == g), base_h + [0 <= K, K < n], "lemma")
+                    maskdef = ForAll([k], Implies(And(0 <= k, k < n), toB(mask.elem(k)) == (toI(lab.elem(k)) == g)), patterns=[lab.elem(k)])
+                    ob(f"L7/{nm}/group-{g}/B-base: rank is the cut of sigma at k=0", invs[g](0), base_h + [maskdef], "lemma")
+                    ob(f"L7/{nm}/group-{g}/B-step: rank is the cut of sigma at k+1", invs[g](K + 1), base_h + [maskdef, 0 <= K, K < n, invs[g](K)], "lemma", {"idx": [str(K), str(rank[g](K)), str(rank[g](K) - 1)]})
+                    lemB.append(ForAll([k], Implies(And(0 <= k, k <= n), invs[g](k)), patterns=[rank[g](k)]))
+                lemmas.append((nm, src, n, rank, cuts, ax, pre, lemA, lemB, invs))
+        if len(lemmas) != 2:
+            continue
+        # use: per class and group, count_g(t) = rank_g(count(t)) for both counting functions; sizes m_g = rank_g(n)
+        facts = []
+        for nm, src, n, rank, cuts, ax, pre, lemA, lemB, invs in lemmas:
+            A = src.sym[0]
+            hyL = hy + ax + [pre, lemA] + lemB
+            logs = [e_ for e_ in ex.__dict__.get("ss_log", [])]
+            for g in GROUPS:
+                sigma, rho, m, mask = cuts[g]
+                ob(f"L7/{nm}/group-{g}: size is rank(n)", m == rank[g](n), hyL + [invs_at for invs_at in ()], "lemma")
+                facts.append(m == rank[g](n))
+                # the named copy the per-group searchsorted worked on
+                named = [e_ for e_ in logs if e_["N"].get_id() == m.get_id() or str(e_["N"]) == str(m)]
+                for e_ in named[:1]:
+                    Ag = e_["A"]
+                    for strict, cf in ((True, P.cnt_lt), (False, P.cnt_le)):
+                        ks = cf(A, n, t)
+                        goal = cf(Ag, m, t) == rank[g](ks)
+                        extra = [P.cnt_char(A, n, t), P.cnt_char(Ag, m, t), 0 <= ks, ks <= n]
+                        # only the facts about this group's selection map, its named copy and the source array are needed
+                        names = {str(sigma), str(rho), str(Ag), str(m)}
+                        rel = [h for h in hy if any(nm_ in h.sexpr() for nm_ in names)] + [P.sorted_formula(A, n)] if src.facts.get("sorted") else None
+                        if rel is None:
+                            rel = hy
+                        inst = Implies(And(0 <= ks, ks <= n), invs[g](ks))
+                        ob(f"L7/{nm}/group-{g}: count{'<' if strict else '<='}(group, t) = rank(count(all, t))", goal, rel + [lemB[GROUPS.index(g)], inst] + extra, "lemma",
+                           {"idx": [str(ks), str(rank[g](ks)), str(rank[g](ks) - 1), str(cf(Ag, m, t)), str(cf(Ag, m, t) - 1)]})
+                        facts.append(goal)
+            facts.append(lemA)
+        # the clause: cells add up
+        for a in (0, 1):
+            for b in (0, 1):
+                tot = sum((toR(GM.elem(gi, a, b)) for gi in range(1, len(GROUPS))), toR(GM.elem(0, a, b)))
+                ob(f"cell-{a}{b}-summed-over-groups-equals-the-overall-cell", tot == toR(OM.elem(a, b)), hy + facts + [P.cnt_char(src.sym[0], toI(src.sym[1]), t) for (_, src, *_r) in lemmas], "post")
+        for s_ in ex.obligs:
+            s_.id = f"C12/partition/safety:{s_.id}#{len(obs)}{tag}"
+            s_.props = ("C12",)
+            obs.append(s_)
     return obs
 
 
